@@ -25,7 +25,11 @@ CONFIG = {
                    'digraphs with <=4 nodes x all node subsets, random graphs '
                    'to 12 nodes, and indirectly by the model checkers) is '
                    'judged for exactness and for leaving the receiver '
-                   'unchanged; results are also mutated to show independence.'),
+                   'unchanged; results are also mutated to show independence.'
+                   ' Also: chains of operations on derived graphs, changes to the'
+                   ' graph between operations, node sets as'
+                   ' list/set/frozenset/tuple/dict view/generator, results'
+                   ' extended through the public API while the graph is watched.'),
     'level_note': ('Trusted base: vmon/refgraph.py; snapshots read '
                    'DiGraph._next. X is a subset of the nodes for '
                    'reachability (the property quantifies over node sets).'),
